@@ -9,6 +9,7 @@ import (
 	"fmt"
 	"hash/fnv"
 	"io"
+	"net"
 	"net/http"
 	"net/http/httptest"
 	"net/url"
@@ -150,6 +151,8 @@ func TestVerifDriver(t *testing.T) {
 		res := "bad-op"
 		if len(w) >= 2 && w[0] == "lb" {
 			res = v.op(w[1:])
+		} else if len(w) >= 2 && w[0] == "pool" {
+			res = poolOp(w[1:])
 		} else if len(w) == 4 && w[0] == "hash" && w[1] == "jump" {
 			k, e1 := strconv.ParseUint(w[2], 10, 64)
 			n, e2 := strconv.ParseInt(w[3], 10, 32)
@@ -336,6 +339,89 @@ func (v *vLB) op(w []string) string {
 		case <-time.After(10 * time.Second):
 			return "hang"
 		}
+	}
+	return "bad-op"
+}
+
+// fake connections for the WebSocket pool: identity + closed flag
+type vConn struct {
+	net.Conn
+	id     int
+	closed bool
+}
+
+func (c *vConn) Close() error { c.closed = true; return nil }
+
+var (
+	vPool  *WebSocketPool
+	vConns map[int]*vConn
+)
+
+func closedList() string {
+	var ids []int
+	for id, c := range vConns {
+		if c.closed {
+			ids = append(ids, id)
+		}
+	}
+	sort.Ints(ids)
+	var parts []string
+	for _, id := range ids {
+		parts = append(parts, strconv.Itoa(id))
+	}
+	return "closed=" + strings.Join(parts, ",")
+}
+
+func poolOp(w []string) string {
+	switch w[0] {
+	case "new":
+		if len(w) != 3 {
+			return "bad-op"
+		}
+		verifclock.Set(0)
+		vPool = NewWebSocketPool(atoi(w[1]), 100, time.Duration(atoi64(w[2])))
+		vConns = map[int]*vConn{}
+		return "ok"
+	}
+	if vPool == nil {
+		return "bad-op"
+	}
+	switch w[0] {
+	case "get":
+		verifclock.Set(atoi64(w[2]))
+		c := vPool.Get(w[1])
+		if c == nil {
+			return "none " + closedList()
+		}
+		return fmt.Sprintf("conn %d %s", c.(*vConn).id, closedList())
+	case "put":
+		verifclock.Set(atoi64(w[3]))
+		id := atoi(w[2])
+		c := vConns[id]
+		if c == nil {
+			c = &vConn{id: id}
+			vConns[id] = c
+		}
+		return fmt.Sprintf("%v %s", vPool.Put(w[1], c), closedList())
+	case "close":
+		id := atoi(w[2])
+		c := vConns[id]
+		if c == nil {
+			c = &vConn{id: id}
+			vConns[id] = c
+		}
+		vPool.Close(w[1], c)
+		return "ok " + closedList()
+	case "cleanup":
+		verifclock.Set(atoi64(w[1]))
+		vPool.cleanup()
+		return "ok " + closedList()
+	case "shutdown":
+		vPool.Shutdown()
+		return "ok " + closedList()
+	case "stats":
+		i, a := vPool.Stats(w[1])
+		return fmt.Sprintf("stats %d %d", i, a)
 	}
 	return "bad-op"
 }
